@@ -82,8 +82,8 @@ pub fn observe_as(set: &AsBlocks) -> Obs {
         .collect()
 }
 
-/// Text in the library's own syntax, written by the harness.
-fn as_text(blocks: &[(u128, u128)], rng: &mut Rng) -> String {
+/// One text item per block in the library's own syntax, written by the harness.
+fn as_text_items(blocks: &[(u128, u128)], rng: &mut Rng) -> Vec<String> {
     let mut parts = Vec::new();
     for (lo, hi) in blocks {
         let pfx = *rng.pick(&["AS", "as", "", "As"]);
@@ -93,12 +93,11 @@ fn as_text(blocks: &[(u128, u128)], rng: &mut Rng) -> String {
             parts.push(format!("{}{}-{}{}", pfx, lo, pfx, hi));
         }
     }
-    let sep = *rng.pick(&[", ", ",", " , "]);
-    parts.join(sep)
+    parts
 }
 
 /// SEQUENCE OF ASIdOrRange written by the independent encoder.
-fn as_der(blocks: &[(u128, u128)], single_as_range: bool) -> Vec<u8> {
+pub fn as_der(blocks: &[(u128, u128)], single_as_range: bool) -> Vec<u8> {
     let mut items = Vec::new();
     for (lo, hi) in blocks {
         if lo == hi && !single_as_range {
@@ -143,6 +142,245 @@ fn is_canonical_input(fl: Flavour, blocks: &[(u128, u128)]) -> bool {
     canonical_defect(&v, false).is_none()
 }
 
+//------------ every public entry point that yields AS blocks ----------------
+//
+// Written from the `pub fn` / trait-impl surface of
+// src/repository/resources/{asres,set,choice}.rs; see c03_ip.rs for the
+// address half.
+
+pub const AS_DER_ENTRIES: &[&str] = &[
+    "AsBlocks::take_from",
+    "AsResources::take_from",
+    "AsBlock::take_opt_from+collect",
+    "item:AsBlock::take_opt_from+collect",
+];
+
+pub const AS_TEXT_ENTRIES: &[&str] = &[
+    "AsBlocks::from_str",
+    "AsResources::from_str",
+    "AsBlocks::deserialize",
+    "AsResources::deserialize",
+    "ResourceSet::from_strs",
+    "ResourceSet::deserialize",
+    "item:AsBlock::from_str+collect",
+];
+
+fn collect_as(v: Vec<AsBlock>, how: u64) -> AsBlocks {
+    match how % 3 {
+        0 => AsBlocks::from_iter(v),
+        1 => {
+            let mut b = AsBlocksBuilder::new();
+            for x in v {
+                b.push(x);
+            }
+            b.finalize()
+        }
+        _ => {
+            let mut b = AsBlocksBuilder::new();
+            let cut = v.len() / 2;
+            b.extend(v[..cut].iter().copied());
+            b.extend(v[cut..].iter().copied());
+            b.finalize()
+        }
+    }
+}
+
+/// Runs DER entry `which` over `data` (a SEQUENCE OF ASIdOrRange).
+pub fn as_der_entry(which: usize, data: &[u8], how: u64) -> Result<AsBlocks, String> {
+    let es = |e: bcder::decode::DecodeError<std::convert::Infallible>| e.to_string();
+    match which {
+        0 => Mode::Der.decode(data.into_source(), AsBlocks::take_from).map_err(es),
+        1 => {
+            // ASIdentifiers ::= SEQUENCE { asnum [0] EXPLICIT SEQUENCE OF }
+            let full = der::seq(&[&der::tlv(der::ctx(0), data)]);
+            Mode::Der
+                .decode(full.as_slice().into_source(), AsResources::take_from)
+                .map_err(es)
+                .and_then(|r| r.to_blocks().map_err(|_| "inherit".to_string()))
+        }
+        2 => {
+            let v: Vec<AsBlock> = Mode::Der
+                .decode(data.into_source(), |cons| {
+                    cons.take_sequence(|cons| {
+                        let mut v = Vec::new();
+                        while let Some(b) = AsBlock::take_opt_from(cons)? {
+                            v.push(b);
+                        }
+                        Ok(v)
+                    })
+                })
+                .map_err(es)?;
+            Ok(collect_as(v, how))
+        }
+        _ => {
+            let root = der::parse(data).ok_or("harness: unreadable")?;
+            let mut v = Vec::new();
+            for c in &root.children {
+                let item = c.whole(data);
+                // the skipping twin must take the same decision as the taking one
+                let skipped = Mode::Der.decode(item.into_source(), AsBlock::skip_opt_in).map(|o| o.is_some());
+                let taken = Mode::Der.decode(item.into_source(), AsBlock::take_opt_from);
+                if let (Ok(true), Err(_)) | (Err(_), Ok(Some(_))) = (&skipped, &taken) {
+                    // recorded by the caller as an observation: C03 does not state it
+                    SKIP_TAKE_DISAGREE.with(|c| c.set(c.get() + 1));
+                }
+                v.push(taken.map_err(es)?.ok_or("no block")?);
+            }
+            Ok(collect_as(v, how))
+        }
+    }
+}
+
+thread_local! {
+    static SKIP_TAKE_DISAGREE: std::cell::Cell<u64> = const { std::cell::Cell::new(0) };
+}
+
+fn replace_string_leaf(v: &mut Value, text: &str) -> bool {
+    match v {
+        Value::String(s) => {
+            *s = text.to_string();
+            true
+        }
+        Value::Array(a) => a.iter_mut().any(|x| replace_string_leaf(x, text)),
+        Value::Object(o) => o.values_mut().any(|x| replace_string_leaf(x, text)),
+        _ => false,
+    }
+}
+
+/// Runs text entry `which` over the items.
+pub fn as_text_entry(which: usize, items: &[String], sep: &str, how: u64) -> Result<AsBlocks, String> {
+    use rpki::repository::resources::ResourceSet;
+    let joined = items.join(sep);
+    match which {
+        0 => AsBlocks::from_str(&joined).map_err(|e| e.to_string()),
+        1 => AsResources::from_str(&joined).map_err(|e| e.to_string()).and_then(|r| r.to_blocks().map_err(|_| "inherit".to_string())),
+        2 => serde_json::from_value::<AsBlocks>(Value::String(joined)).map_err(|e| e.to_string()),
+        3 => {
+            // the serde shape of the wrapper is learnt from a serialised value; its text leaf is then replaced
+            let mut v = serde_json::to_value(AsResources::blocks(AsBlocks::from_iter([AsBlock::Id(Asn::from_u32(7))]))).map_err(|e| format!("harness: {}", e))?;
+            if !replace_string_leaf(&mut v, &joined) {
+                return Err("harness: no text leaf in the serde form of AsResources".into());
+            }
+            serde_json::from_value::<AsResources>(v).map_err(|e| e.to_string()).and_then(|r| r.to_blocks().map_err(|_| "inherit".to_string()))
+        }
+        4 => ResourceSet::from_strs(&joined, "", "").map(|r| r.asn().clone()).map_err(|e| e.to_string()),
+        5 => serde_json::from_value::<ResourceSet>(json!({"asn": joined, "ipv4": "", "ipv6": ""})).map(|r| r.asn().clone()).map_err(|e| e.to_string()),
+        _ => {
+            let v: Result<Vec<AsBlock>, _> = items.iter().map(|s| AsBlock::from_str(s)).collect();
+            v.map(|v| collect_as(v, how)).map_err(|e| e.to_string())
+        }
+    }
+}
+
+/// See `c03_ip::judge_entry`.
+#[allow(clippy::too_many_arguments)]
+fn judge_as_entry(ctx: &mut Ctx, entry: &str, r: Result<AsBlocks, String>, model: &IntervalSet, reversed: bool, must_accept: bool, detail: &dyn Fn() -> Value) -> Option<AsBlocks> {
+    let fl = Flavour::As;
+    let n = SKIP_TAKE_DISAGREE.with(|c| c.replace(0));
+    if n > 0 {
+        ctx.obs("as_skip_and_take_disagree(observation)", n);
+    }
+    match r {
+        Ok(s) => {
+            ctx.obs(&format!("accepted via {}", entry), 1);
+            let obs = observe_as(&s);
+            if reversed {
+                ctx.eval();
+                ctx.obs("as_reversed_accepted", 1);
+                if let Some(d) = canonical_defect(&obs, false) {
+                    ctx.violation(
+                        &format!("C03:as:{}:reversed-range:non-canonical:{}", entry, d),
+                        "input with an AS range whose lower bound is above its upper bound was accepted and the resulting collection is not canonical",
+                        json!({"observed": obs_json(&obs), "case": detail()}),
+                    );
+                    return None;
+                }
+                // counting must not panic where the count is representable
+                let m = IntervalSet::from_ranges(&obs.iter().map(|(a, b, _)| (*a, *b)).collect::<Vec<_>>());
+                if m.count().map(|n| n <= u32::MAX as u128).unwrap_or(false) {
+                    ctx.no_panic("as:asn_count-after-reversed-input", detail, || s.asn_count());
+                }
+                Some(s)
+            } else if check_set(ctx, fl, entry, &obs, model, detail) {
+                Some(s)
+            } else {
+                None
+            }
+        }
+        Err(e) => {
+            ctx.eval();
+            ctx.obs(&format!("rejected by {}", entry), 1);
+            if must_accept && !e.starts_with("harness:") {
+                ctx.violation(&format!("C03:as:{}:rejects-canonical", entry), "a canonical RFC 3779 AS block encoding was rejected", json!({"error": e, "case": detail()}));
+            } else if reversed {
+                ctx.obs("as_reversed_rejected", 1);
+            } else {
+                ctx.obs("as_entry_noncanonical_or_text_rejected", 1);
+            }
+            None
+        }
+    }
+}
+
+/// One hostile list (see `c03_ip::hostile_list`) through every AS entry point.
+fn as_entry_sweep(ctx: &mut Ctx, rng: &mut Rng) {
+    let fl = Flavour::As;
+    let reversed = rng.bool();
+    let seq = sequence(fl, rng, 4);
+    let mut blocks = seq.blocks.clone();
+    let max = fl.max();
+    for _ in 0..rng.below(3) {
+        let x = fl.endpoint(rng);
+        let b = match rng.below(6) {
+            0 => (x.min(max - 1).max(1), max),
+            1 => (0, x.min(max - 1)),
+            2 => (0, max),
+            3 => (max, max),
+            4 => (0, 0),
+            _ => (x, x),
+        };
+        let pos = rng.usize_below(blocks.len() + 1);
+        blocks.insert(pos, b);
+    }
+    if reversed {
+        let (a, b) = loop {
+            let a = fl.endpoint(rng);
+            let b = fl.endpoint(rng);
+            if a != b {
+                break (a.max(b), a.min(b));
+            }
+        };
+        let pos = rng.usize_below(blocks.len() + 1);
+        blocks.insert(pos, (a, b));
+    }
+    let model = fl.model(&blocks);
+    let items = as_text_items(&blocks, rng);
+    let sep = *rng.pick(&[", ", ",", " , "]);
+    for (i, entry) in AS_TEXT_ENTRIES.iter().enumerate() {
+        let how = rng.below(6);
+        let d = || json!({"flavour": "as", "entry": entry, "items": items, "collector": how % 3});
+        ctx.sig(&format!("as entry {} reversed={}", entry, reversed));
+        if let Some(r) = ctx.no_panic(&format!("as:{}", entry), d, || as_text_entry(i, &items, sep, how)) {
+            judge_as_entry(ctx, entry, r, &model, reversed, false, &d);
+        }
+    }
+    let single_as_range = rng.chance(1, 4);
+    let data = as_der(&blocks, single_as_range);
+    let canonical = !reversed && !single_as_range && !blocks.is_empty() && is_canonical_input(fl, &blocks);
+    for (i, entry) in AS_DER_ENTRIES.iter().enumerate() {
+        let how = rng.below(6);
+        let d = || json!({"flavour": "as", "entry": entry, "der": crate::core::hex(&data), "blocks": blocks_json(&blocks), "collector": how % 3});
+        ctx.sig(&format!("as entry {} reversed={} canonical={}", entry, reversed, canonical));
+        if let Some(r) = ctx.no_panic(&format!("as:{}", entry), d, || as_der_entry(i, &data, how)) {
+            judge_as_entry(ctx, entry, r, &model, reversed, canonical, &d);
+        }
+    }
+    if ctx.wants_sample("as-entry-sweep") {
+        ctx.sample("as-entry-sweep", || json!({"blocks": blocks_json(&blocks), "text_items": items, "der": crate::core::hex(&data), "entries": AS_TEXT_ENTRIES.len() + AS_DER_ENTRIES.len()}));
+    }
+    ctx.drain_chain_hook(|| json!({"flavour": "as", "entry-sweep": blocks_json(&blocks)}));
+}
+
 struct AsCase {
     set: AsBlocks,
     model: IntervalSet,
@@ -152,7 +390,7 @@ struct AsCase {
 fn as_construct(ctx: &mut Ctx, rng: &mut Rng, seq: &Seq) -> Option<AsCase> {
     let fl = Flavour::As;
     let model = fl.model(&seq.blocks);
-    let how = rng.below(5);
+    let how = rng.below(7);
     let blocks = seq.blocks.clone();
     let detail = |how: &str| json!({"constructor": how, "blocks": blocks_json(&blocks)});
     let set = match how {
@@ -180,121 +418,32 @@ fn as_construct(ctx: &mut Ctx, rng: &mut Rng, seq: &Seq) -> Option<AsCase> {
             if !check_set(ctx, fl, "builder", &observe_as(&s), &model, || detail("builder")) { return None; }
             s
         }
-        3 => {
-            let text = as_text(&blocks, rng);
-            let canonical = is_canonical_input(fl, &blocks);
-            let r = ctx.no_panic("as:from_str", || json!({"text": text}), || AsBlocks::from_str(&text))?;
-            ctx.sig(&format!("as from_str {}", seq.shape));
-            match r {
-                Ok(s) => {
-                    if !check_set(ctx, fl, "from_str", &observe_as(&s), &model, || json!({"text": text})) { return None; }
-                    s
-                }
-                Err(e) => {
-                    ctx.eval();
-                    // The statement does not say which spellings must parse (the
-                    // library's own Display output is checked separately), so a
-                    // rejection of harness-written text is only recorded.
-                    let _ = e;
-                    if canonical {
-                        ctx.obs("as_text_canonical_rejected", 1);
-                    } else {
-                        ctx.obs("as_text_noncanonical_rejected", 1);
-                    }
-                    return None;
-                }
-            }
+        3 | 4 => {
+            let items = as_text_items(&blocks, rng);
+            let sep = *rng.pick(&[", ", ",", " , "]);
+            let which = rng.usize_below(AS_TEXT_ENTRIES.len());
+            let coll = rng.below(6);
+            let entry = AS_TEXT_ENTRIES[which];
+            let d = || json!({"flavour": "as", "entry": entry, "items": items, "collector": coll % 3});
+            let r = ctx.no_panic(&format!("as:{}", entry), d, || as_text_entry(which, &items, sep, coll))?;
+            ctx.sig(&format!("as {} {}", entry, seq.shape));
+            judge_as_entry(ctx, entry, r, &model, false, false, &d)?
         }
         _ => {
             let single_as_range = rng.chance(1, 4);
             let data = as_der(&blocks, single_as_range);
-            let canonical = is_canonical_input(fl, &blocks) && !single_as_range;
-            let wrap = rng.bool();
-            let r = if wrap {
-                // ASIdentifiers ::= SEQUENCE { asnum [0] EXPLICIT SEQUENCE OF }
-                let full = der::seq(&[&der::tlv(der::ctx(0), &data)]);
-                ctx.no_panic("as:der-resources", || json!({"der": crate::core::hex(&full)}), || {
-                    Mode::Der.decode(full.as_slice().into_source(), AsResources::take_from).map(|r| r.to_blocks().unwrap_or_default())
-                })?
-            } else {
-                ctx.no_panic("as:der-blocks", || json!({"der": crate::core::hex(&data)}), || {
-                    Mode::Der.decode(data.as_slice().into_source(), AsBlocks::take_from)
-                })?
-            };
-            ctx.sig(&format!("as der wrap={} {}", wrap, seq.shape));
-            match r {
-                Ok(s) => {
-                    if !check_set(ctx, fl, "der-decode", &observe_as(&s), &model, || json!({"der": crate::core::hex(&data), "blocks": blocks_json(&blocks)})) { return None; }
-                    s
-                }
-                Err(e) => {
-                    ctx.eval();
-                    if canonical && !blocks.is_empty() {
-                        ctx.violation("C03:as:der-decode:rejects-canonical", "a canonical RFC 3779 AS block encoding was rejected", json!({"der": crate::core::hex(&data), "error": e.to_string()}));
-                    } else {
-                        ctx.obs("as_der_noncanonical_rejected", 1);
-                    }
-                    return None;
-                }
-            }
+            let canonical = is_canonical_input(fl, &blocks) && !single_as_range && !blocks.is_empty();
+            let which = rng.usize_below(AS_DER_ENTRIES.len());
+            let coll = rng.below(6);
+            let entry = AS_DER_ENTRIES[which];
+            let d = || json!({"flavour": "as", "entry": entry, "der": crate::core::hex(&data), "blocks": blocks_json(&blocks), "collector": coll % 3});
+            let r = ctx.no_panic(&format!("as:{}", entry), d, || as_der_entry(which, &data, coll))?;
+            ctx.sig(&format!("as {} {}", entry, seq.shape));
+            judge_as_entry(ctx, entry, r, &model, false, canonical, &d)?
         }
     };
     ctx.drain_chain_hook(|| json!({"flavour": "as", "blocks": blocks_json(&blocks)}));
     Some(AsCase { set, model, blocks })
-}
-
-/// Reversed ranges offered through text and DER: only "error or canonical".
-fn as_reversed(ctx: &mut Ctx, rng: &mut Rng) {
-    let fl = Flavour::As;
-    let seq = sequence(fl, rng, 4);
-    let mut blocks = seq.blocks.clone();
-    let a = fl.endpoint(rng);
-    let b = fl.endpoint(rng);
-    if a == b {
-        return;
-    }
-    let pos = rng.usize_below(blocks.len() + 1);
-    blocks.insert(pos, (a.max(b), a.min(b)));
-    let text = as_text(&blocks, rng);
-    ctx.sig("as reversed-range text");
-    if let Some(r) = ctx.no_panic("as:from_str-reversed", || json!({"text": text}), || AsBlocks::from_str(&text)) {
-        ctx.eval();
-        match r {
-            Ok(s) => {
-                let obs = observe_as(&s);
-                if let Some(d) = canonical_defect(&obs, false) {
-                    ctx.violation(&format!("C03:as:from_str-reversed-range:non-canonical:{}", d), "text with a range whose lower bound is above its upper bound was accepted and stored non-canonically", json!({"text": text, "observed": obs_json(&obs)}));
-                }
-                // counting must not panic where the count is representable
-                let m = IntervalSet::from_ranges(&obs.iter().map(|(a, b, _)| (*a, *b)).collect::<Vec<_>>());
-                if m.count().map(|n| n <= u32::MAX as u128).unwrap_or(false) {
-                    ctx.no_panic("as:asn_count-after-reversed-text", || json!({"text": text}), || s.asn_count());
-                }
-                ctx.obs("as_reversed_text_accepted", 1);
-            }
-            Err(_) => ctx.obs("as_reversed_text_rejected", 1),
-        }
-    }
-    let data = as_der(&blocks, false);
-    ctx.sig("as reversed-range der");
-    if let Some(r) = ctx.no_panic("as:der-reversed", || json!({"der": crate::core::hex(&data)}), || Mode::Der.decode(data.as_slice().into_source(), AsBlocks::take_from)) {
-        ctx.eval();
-        match r {
-            Ok(s) => {
-                let obs = observe_as(&s);
-                if let Some(d) = canonical_defect(&obs, false) {
-                    ctx.violation(&format!("C03:as:der-reversed-range:non-canonical:{}", d), "an RFC 3779 AS range with min above max was accepted and stored non-canonically", json!({"der": crate::core::hex(&data), "observed": obs_json(&obs)}));
-                }
-                let m = IntervalSet::from_ranges(&obs.iter().map(|(a, b, _)| (*a, *b)).collect::<Vec<_>>());
-                if m.count().map(|n| n <= u32::MAX as u128).unwrap_or(false) {
-                    ctx.no_panic("as:asn_count-after-reversed-der", || json!({"der": crate::core::hex(&data)}), || s.asn_count());
-                }
-                ctx.obs("as_reversed_der_accepted", 1);
-            }
-            Err(_) => ctx.obs("as_reversed_der_rejected", 1),
-        }
-    }
-    ctx.drain_chain_hook(|| json!({"flavour": "as", "reversed-input": blocks_json(&blocks)}));
 }
 
 /// AS resources built with `AsResourcesBuilder`, spreading the blocks over
@@ -428,6 +577,43 @@ fn as_unary(ctx: &mut Ctx, c: &AsCase) {
                 }
             }
             Err(e) => ctx.violation("C03:as:der-roundtrip:rejected", "the DER encoding of a set is rejected by the decoder", json!({"der": crate::core::hex(&bytes), "error": e.to_string()})),
+        }
+    }
+    // every other public structural encoder of the collection and its wrapper
+    if !c.model.is_empty() {
+        let ext = |b: Vec<u8>| {
+            // Extension ::= SEQUENCE { extnID, critical, extnValue OCTET STRING { ASIdentifiers } }
+            let root = der::parse(&b)?;
+            let val = root.children.last()?;
+            if val.tag != der::T_OCTETSTRING {
+                return None;
+            }
+            let inner = val.content(&b).to_vec();
+            der::parse(&inner)?.path(&[0, 0]).map(|n| n.whole(&inner).to_vec())
+        };
+        let wrapped = |b: Vec<u8>| der::parse(&b).and_then(|root| root.path(&[0, 0]).map(|n| n.whole(&b).to_vec()));
+        let twins: Vec<(&str, Box<dyn Fn() -> Option<Vec<u8>> + '_>)> = vec![
+            // AsBlocks' own encoders write the ASIdOrRange values only; the SEQUENCE OF around them is the wrapper's
+            ("AsBlocks::encode_ref", Box::new(|| Some(der::tlv(der::T_SEQUENCE, c.set.encode_ref().to_captured(Mode::Der).as_slice())))),
+            ("AsBlocks::encode", Box::new(|| Some(der::tlv(der::T_SEQUENCE, c.set.clone().encode().to_captured(Mode::Der).as_slice())))),
+            ("AsResources::encode", Box::new(|| wrapped(res.clone().encode().to_captured(Mode::Der).as_slice().to_vec()))),
+            ("AsResources::encode_extension", Box::new(|| ext(res.encode_extension(Overclaim::Trim).to_captured(Mode::Der).as_slice().to_vec()))),
+        ];
+        for (twin, f) in &twins {
+            let Some(inner) = ctx.no_panic(&format!("as:{}", twin), d, f) else { continue };
+            ctx.eval();
+            ctx.sig(&format!("as encoder {}", twin));
+            match inner.as_deref().and_then(as_der_read) {
+                Some(read) => {
+                    let obs: Obs = read.iter().map(|(a, b)| (*a, *b, false)).collect();
+                    if fl.model(&read) != c.model || read.iter().any(|(a, b)| a > b) {
+                        ctx.violation(&format!("C03:as:{}:wrong-set", twin), "a structural encoder writes an encoding that denotes a different set", json!({"der": inner.as_deref().map(crate::core::hex), "blocks": blocks_json(blocks)}));
+                    } else if let Some(defect) = canonical_defect(&obs, false) {
+                        ctx.violation(&format!("C03:as:{}:non-canonical:{}", twin, defect), "a structural encoder writes a non-canonical encoding", json!({"der": inner.as_deref().map(crate::core::hex), "blocks": blocks_json(blocks)}));
+                    }
+                }
+                None => ctx.violation(&format!("C03:as:{}:unreadable", twin), "a structural encoder does not write a SEQUENCE OF ASIdOrRange where RFC 3779 puts one", json!({"der": inner.as_deref().map(crate::core::hex), "blocks": blocks_json(blocks)})),
+            }
         }
     }
     // counts
@@ -564,7 +750,7 @@ fn run_as(ctx: &mut Ctx) {
                 as_pair(ctx, a, b);
             }
         }
-        as_reversed(ctx, &mut rng);
+        as_entry_sweep(ctx, &mut rng);
         as_builder_multi_call(ctx, &mut rng);
     }
     // special constants
